@@ -444,6 +444,17 @@ def sites():
                 f"def dualModes : List (String × String) := {_lean_str_table(rows)}\n"
                 f"def dualVertexLoop : String × String := (\"{src['vertices'][0]}\", \"{src['vertices'][1]}\")\n"
                 f"def dualFaceLoop : String × String := (\"{src['faces'][0]}\", \"{src['faces'][1]}\")\n\n")
+        # the two loops as functional terms: `mesh.id_faces` / `mesh.id_vertices` are range(nF) / range(nV); the element appended is
+        # `dual_pts[<loop variable>]` resp. `mesh.connectivity.vertex_to_faces(<loop variable>)` — anything else is outside the subset
+        if src["vertices"] != ("mesh.id_faces", "dual_pts[i]") and not (src["vertices"][0] == "mesh.id_faces" and src["vertices"][1] == "dual_pts[i]"):
+            raise T.TranslateError(f"dual_mesh: vertex loop is not `for F in mesh.id_faces: append(dual_pts[F])` but {src['vertices']}")
+        if src["faces"] != ("mesh.id_vertices", "mesh.connectivity.vertex_to_faces(i)"):
+            raise T.TranslateError(f"dual_mesh: face loop is not `for V in mesh.id_vertices: append(vertex_to_faces(V))` but {src['faces']}")
+        order = [f for l in loops for f in (["vertices"] if ".vertices.append" in ast.unparse(l.body[0]) else ["faces"])]
+        core += ("/-- the two filling loops of `dual_mesh` as functional terms (`dual_pts`: the position table chosen by `mode`;\n"
+                 "`vertex_to_faces`: the connectivity query, specified by C01) -/\n"
+                 "def dualVerts {α : Type} (nF : Nat) (dual_pts : Nat → α) : List α :=\n  ((List.range nF).flatMap (fun i => [dual_pts i]))\n"
+                 "def dualFaces (nV : Nat) (vertex_to_faces : Nat → List Nat) : List (List Nat) :=\n  ((List.range nV).flatMap (fun i => [vertex_to_faces i]))\n\n")
         return core, ""
     out.append((f"{DUAL}:dual_mesh (mode dispatch, what each loop appends)", dual))
 
